@@ -1,4 +1,5 @@
 import Dhlldv.Lemmas.Basic
+import Dhlldv.Lemmas.Canon
 import Dhlldv.Gen.Framework
 import Mathlib.Analysis.SpecialFunctions.Pow.Real
 import Mathlib.Analysis.SpecialFunctions.Log.Basic
@@ -52,7 +53,6 @@ end InE
 
 /-! ### Reynolds number and the Swamee–Jain friction factor -/
 
-theorem reynolds_eq (vls Dp nu : ℝ) : homogeneous.pipe_reynolds_number vls Dp nu = vls * Dp / nu := rfl
 
 theorem reynolds_pos (vls Dp nu : ℝ) (hv : 0 < vls) (hD : 0 < Dp) (hn : 0 < nu) :
     0 < homogeneous.pipe_reynolds_number vls Dp nu := by
@@ -80,13 +80,10 @@ theorem rpow09_gt (Re : ℝ) (hRe : 2320 < Re) : 48 < Re ^ (0.9 : ℝ) := by
 /-- the friction factor is positive for every positive Reynolds number, positive diameter and a relative roughness term below 0.8 -/
 theorem swamee_jain_pos (Re Dp eps : ℝ) (hRe : 0 < Re) (hD : 0 < Dp) (he : 0 ≤ eps) (hc : eps / (3.7 * Dp) ≤ 0.8) :
     0 < homogeneous.swamee_jain_ff Re Dp eps := by
-  unfold homogeneous.swamee_jain_ff
-  simp only [Transc.rpow, Transc.npow, Transc.log, decide_eq_true_eq]
+  rw [swamee_jain_canon]
   split_ifs with hl
   · positivity
-  · have hRe2 : 2320 < Re := by
-      have : ¬ Re ≤ 2320 := by norm_num at hl ⊢; exact hl
-      exact not_le.1 this
+  · have hRe2 : 2320 < Re := not_le.1 hl
     have h48 := rpow09_gt Re hRe2
     have hc1 : 0 ≤ eps / (3.7 * Dp) := by positivity
     have hc2 : 0 < 5.75 / Re ^ (0.9:ℝ) := by positivity
@@ -106,8 +103,7 @@ theorem InE.rough_le {vls Dp d eps nu rhol rhos Cv : ℝ} (h : InE vls Dp d eps 
 /-- the carrier-liquid gradient is positive in E (Darcy–Weisbach with a positive friction factor) -/
 theorem InE.il_pos {vls Dp d eps nu rhol rhos Cv : ℝ} (h : InE vls Dp d eps nu rhol rhos Cv) :
     0 < homogeneous.fluid_head_loss vls Dp eps nu rhol := by
-  unfold homogeneous.fluid_head_loss
-  simp only [Transc.npow]
+  rw [fluid_head_loss_canon]
   have hl := swamee_jain_pos (homogeneous.pipe_reynolds_number vls Dp nu) Dp eps
     (reynolds_pos vls Dp nu h.vls_pos h.Dp_pos h.nu_pos) h.Dp_pos h.eps_pos.le h.rough_le
   have hg : (0:ℝ) < Cst.gravity := by unfold Cst.gravity; norm_num
@@ -118,12 +114,11 @@ theorem InE.il_pos {vls Dp d eps nu rhol rhos Cv : ℝ} (h : InE vls Dp d eps nu
 
 /-- Ruby & Zanke terminal settling velocity is positive for positive grain size, relative density and viscosity -/
 theorem vt_ruby_pos (d Rsd nu K : ℝ) (hd : 0 < d) (hR : 0 < Rsd) (hn : 0 < nu) : 0 < heterogeneous.vt_ruby d Rsd nu K := by
-  unfold heterogeneous.vt_ruby
-  simp only [Transc.rpow, Transc.npow]
+  rw [vt_ruby_canon]
   have hg : (0:ℝ) < Cst.gravity := by unfold Cst.gravity; norm_num
-  have hx : 0 < Rsd * Cst.gravity * d ^ 3 / (100.0 * nu ^ 2) := by positivity
-  have h1 : (1:ℝ) < (1.0 + Rsd * Cst.gravity * d ^ 3 / (100.0 * nu ^ 2)) ^ (0.5:ℝ) := by
+  have hx : 0 < Rsd * Cst.gravity * d ^ 3 / (100 * nu ^ 2) := by positivity
+  have h1 : (1:ℝ) < (1 + Rsd * Cst.gravity * d ^ 3 / (100 * nu ^ 2)) ^ (0.5:ℝ) := by
     apply Real.one_lt_rpow _ (by norm_num)
-    norm_num; linarith
-  have : 0 < (1.0 + Rsd * Cst.gravity * d ^ 3 / (100.0 * nu ^ 2)) ^ (0.5:ℝ) - 1.0 := by norm_num; linarith
+    linarith
+  have : 0 < (1 + Rsd * Cst.gravity * d ^ 3 / (100 * nu ^ 2)) ^ (0.5:ℝ) - 1 := by linarith
   positivity
